@@ -79,7 +79,7 @@ def handler(job):
     out = {"hooked": hooked}
     try:
         with warnings.catch_warnings(record=True) as w:
-            warnings.simplefilter("always")
+            warnings.simplefilter("always", append=True)
             if job["call"] == "pair":
                 lb, ub = persim.gromov_hausdorff(objs[0], objs[1], **kw)
                 out["lb"], out["ub"] = fl(lb), fl(ub)
